@@ -44,7 +44,7 @@ fn join_fields(fields: &[Vec<u8>], sep: u8, nl: &[u8]) -> Vec<u8> {
 /// Returns the corrupted bytes and a short label.
 pub fn corrupt_generic(rng: &mut Rng, data: &[u8], sep: u8) -> (Vec<u8>, &'static str) {
     let mut lines = lines_of(data);
-    match rng.below(16) {
+    match rng.below(17) {
         0 => (vec![], "file emptied"),
         1 if !data.is_empty() => {
             // torn file: cut at an arbitrary byte (often inside the last line)
@@ -131,6 +131,21 @@ pub fn corrupt_generic(rng: &mut Rng, data: &[u8], sep: u8) -> (Vec<u8>, &'stati
             }
             lines[i] = join_fields(&f, sep, &nl);
             (join(&lines), "number replaced by boundary value")
+        }
+        15 if !lines.is_empty() => {
+            // a field replaced by a long run of multi-byte characters (hundreds of bytes; an
+            // ASCII prefix of 0-2 bytes shifts where any byte limit falls inside a character)
+            let i = rng.usize(lines.len());
+            let (mut f, nl) = split_fields(&lines[i], sep);
+            let k = rng.usize(f.len());
+            let mut t = "x".repeat(rng.usize(3));
+            let c = *rng.pick(&['長', 'あ', 'é', '\u{1F600}']);
+            for _ in 0..60 + rng.usize(120) {
+                t.push(c);
+            }
+            f[k] = t.into_bytes();
+            lines[i] = join_fields(&f, sep, &nl);
+            (join(&lines), "field replaced by a long multi-byte token")
         }
         14 if !data.is_empty() => {
             // final newline removed / added
